@@ -65,10 +65,43 @@ fn main() {
         }
         i += 1;
     }
+    // replay files recorded by the debug-assertion build are replayed by that build
+    if let Some(path) = &replay {
+        if engine::variant() == "release" {
+            let v: Option<serde_json::Value> = std::fs::read_to_string(path).ok().and_then(|s| serde_json::from_str(&s).ok());
+            if v.as_ref().and_then(|v| v["variant"].as_str()) == Some("debug-assertions") {
+                match std::env::var("VERIF_RELCHECK_BIN") {
+                    Ok(bin) => {
+                        use std::os::unix::process::CommandExt;
+                        let e = std::process::Command::new(bin).args(&args[1..]).env("VERIF_VARIANT", "debug-assertions").exec();
+                        eprintln!("cannot exec the debug-assertion build: {e}");
+                        std::process::exit(2);
+                    }
+                    Err(_) => {
+                        eprintln!("replay needs the debug-assertion build (run through bin/check)");
+                        std::process::exit(2);
+                    }
+                }
+            }
+        }
+    }
     let seed: u64 = std::env::var("VERIF_SEED").ok().and_then(|s| s.trim().parse::<i128>().ok()).map(|v| v as u64).unwrap_or(0);
     let seed = if seed == 0 { 0x5eed_0a1d_d00d } else { seed };
     let par: usize = std::env::var("VERIF_PAR").ok().and_then(|s| s.parse().ok()).unwrap_or_else(|| std::thread::available_parallelism().map(|n| n.get()).unwrap_or(8));
-    let cfg = Cfg { prop: prop.clone(), thorough, seed, par, replay };
+    // a replay restores the recorded seed and tier (used by modules that replay the campaign)
+    let (mut seed, mut thorough, mut replay_sig) = (seed, thorough, None);
+    if let Some(path) = &replay {
+        if let Some(v) = std::fs::read_to_string(path).ok().and_then(|s| serde_json::from_str::<serde_json::Value>(&s).ok()) {
+            if let Some(s) = v["seed"].as_u64() {
+                seed = s;
+            }
+            if let Some(t) = v["tier"].as_str() {
+                thorough = t == "thorough";
+            }
+            replay_sig = v["signature"].as_str().map(|s| s.to_string());
+        }
+    }
+    let cfg = Cfg { prop: prop.clone(), thorough, seed, par, replay, replay_sig };
     // worker threads of OxiDD managers get 1 GiB stacks by default; keep them small
     if std::env::var("OXIDD_STACK_SIZE").is_err() {
         unsafe { std::env::set_var("OXIDD_STACK_SIZE", "2097152") };
